@@ -62,6 +62,42 @@ Theorem C11_counts_guesser :
   length (filter (fun pw => existsb (ostr_eqb pw) (level_strings (gview T) (Z.of_nat L))) pws).
 Proof. exact ol_counts_guesser. Qed.
 
+(* --- with the readers' line framing and codec made explicit ---
+   The scorer obtains the written line lists when it decodes the files with the
+   codec they were written with and no string of the tables contains TAB or
+   one of its reader's line ends; then it agrees with the trainer on every string *)
+Theorem C11_scorer_reads_and_agrees :
+  forall sbreaks T, wf_ttab T -> chars_avoid (TABc :: sbreaks) T ->
+  exists Sc, read_s true sbreaks (write T) = Some Sc /\ forall s, scorer_level Sc s = trainer_level T s.
+Proof. exact ol_scorer_reads_and_agrees. Qed.
+
+Theorem C11_guesser_reads_and_agrees :
+  forall breaks T, wf_ttab T -> levels_le guesser_max_level T -> chars_avoid (TABc :: breaks) T ->
+  exists G, read_g breaks (write T) = Some G /\ wf_tables G /\
+  forall s L, In s (level_strings G (Z.of_nat L)) <-> trainer_level T s = Some L.
+Proof. exact ol_guesser_reads_and_agrees. Qed.
+
+(* tables built from passwords check_valid admits avoid every character it rejects;
+   that is enough when check_valid rejects TAB and every line end of the reader *)
+Theorem C11_avoid_from_rejected :
+  forall rejected breaks T,
+  forallb (fun c => existsb (N.eqb c) rejected) (TABc :: breaks) = true ->
+  chars_avoid rejected T -> chars_avoid (TABc :: breaks) T.
+Proof. exact ol_avoid_from_rejected. Qed.
+
+(* the code as found: U+2029 passes check_valid but ends a line for the guesser's
+   reader: trainer and scorer give the string a level, the guesser loads nothing *)
+Theorem C11_refuted_u2029 :
+  wf_ttab T_u2029 /\ levels_le guesser_max_level T_u2029 /\
+  trainer_level T_u2029 [98%N; 97%N; 98%N; 8233%N] = Some 0 /\
+  (exists Sc, read_s true scorer_breaks (write T_u2029) = Some Sc /\ scorer_level Sc [98%N; 97%N; 98%N; 8233%N] = Some 0) /\
+  read_g [10%N; 13%N; 8233%N] (write T_u2029) = None.
+Proof. exact ol_refuted_u2029. Qed.
+
+(* ... and a scorer that decodes with another codec loads nothing *)
+Theorem C11_refuted_scorer_codec : forall breaks F, read_s false breaks F = None.
+Proof. exact ol_refuted_scorer_codec. Qed.
+
 (* the hypotheses are satisfiable on a table with several levels *)
 Theorem C11_hypotheses_satisfiable :
   wf_ttab T_r9 /\ levels_le guesser_max_level T_r9 /\
@@ -78,3 +114,27 @@ Print Assumptions C11_scorer_eq_trainer.
 Print Assumptions C11_guesser_iff.
 Print Assumptions C11_guesser_once.
 Print Assumptions C11_counts_guesser.
+Print Assumptions C11_scorer_reads_and_agrees.
+Print Assumptions C11_guesser_reads_and_agrees.
+Print Assumptions C11_refuted_u2029.
+
+(* Side conditions on the constants re-extracted from the source / probed from
+   the interpreter on every run (harness/consts/omen_level.py).  They come LAST
+   so that everything above is checked even when they fail. *)
+
+(* whichever reader the scorer uses, check_valid rejects TAB and its line ends *)
+Theorem C11_source_scorer_line_ends_rejected :
+  forallb (fun c => existsb (N.eqb c) trainer_rejected_chars)
+          (TABc :: (if scorer_uses_codecs_reader then guesser_linebreaks else scorer_breaks)) = true.
+Proof. vm_compute. reflexivity. Qed.
+
+(* the scorer must open IP.level / CP.level with the ruleset's encoding
+   (hypothesis decoded_ok = true of C11_scorer_reads_and_agrees) *)
+Theorem C11_source_scorer_uses_ruleset_encoding : scorer_opens_with_ruleset_encoding = true.
+Proof. reflexivity. Qed.
+
+(* check_valid must reject TAB and every character the guesser's reader
+   (codecs: str.splitlines) ends a line at *)
+Theorem C11_source_trainer_rejects_linebreaks :
+  forallb (fun c => existsb (N.eqb c) trainer_rejected_chars) (TABc :: guesser_linebreaks) = true.
+Proof. vm_compute. reflexivity. Qed.
